@@ -36,7 +36,7 @@ def value(rng, w, n):
     """One W-bit pattern drawn from structured classes (tag, value)."""
     W = w * n
     M = 1 << W
-    c = rng.randrange(16)
+    c = rng.randrange(18)
     if c == 0:
         return "zero", 0
     if c == 1:
@@ -69,6 +69,12 @@ def value(rng, w, n):
         # low digits only (short value)
         k = rng.randrange(1, n + 1)
         return "short", rng.randrange(1 << (w * k))
+    if c in (13, 14):
+        # +-2^(w*j) +- small: the low digit(s) look like a sign-/zero-extended narrow value while the
+        # whole number has the other sign or magnitude (digit-boundary confusions)
+        j = rng.randrange(1, n + 1)
+        z = rng.choice([1, -1]) * (1 << (w * j)) + rng.choice([-129, -128, -127, -2, -1, 0, 1, 2, 127, 128, 129])
+        return "digit-boundary", pat(z, W)
     # extreme digits
     v = 0
     for i in range(n):
